@@ -134,4 +134,17 @@ CHECKS["C03"] = dict(
              "transfer functions, bound to the code in C04); basis enumeration bounded by the tier (n <= 4096 quick, all n thorough).",
 )
 
+CHECKS["C14"] = dict(
+        src="checks/c14.cpp", cfg="rel", link="static", engine="A-case-explorer",
+        category="exploration", design_ref="DESIGN.md section 4, C14",
+        technique="exhaustive enumeration of all 2^32 int32 inputs and of per-binade boundary alphabets x divisors x log2overhead on the real kernels, judged in exact binary128 arithmetic",
+        text="int32 -> complex is run on ALL 2^32 inputs for the four kernels; int64 -> double on the complete range |x| < 2^27 plus structured "
+             "values up to 2^50; double -> int64 (reference, fast, wide) on a boundary alphabet of every binade up to the domain limit (mantissas "
+             "1, 1+ulp, 1.25, 1.5-ulp, 1.5, 1.5+ulp, 2-ulp; k+1/2 +- ulp; domain edge) for every divisor 2^0..2^40 with the verdict |out - x/d| <= 1/2 "
+             "evaluated exactly; complex -> torus32 and double -> torus double likewise for every log2overhead 0..48; every m = 1..64 and every "
+             "dispatch configuration through the constructor API and the *_simple forms.",
+        note="Only the int32 sweep is exhaustive over values; the double domains are covered by a structured boundary alphabet per binade, not by "
+             "all doubles.",
+)
+
 NOT_YET = {}
